@@ -83,7 +83,45 @@ HASHMAP = dict(
                ("remove", "g_remove"), ("~hash_map", "g_destroy"), ("operator++", "g_incr", None, "iterator")],
 )
 
-PARTS = {"pairing": PAIRING, "hashmap": HASHMAP}
+RBT = "frg::_redblack::tree_struct<rg_node, &rg_node::hook, rg_less, rg_agg>"
+RB = dict(
+    name="rb",
+    tu=("#include <frg/rbtree.hpp>\n"
+        "struct rg_node { unsigned long key; frg::rbtree_hook hook; };\n"
+        "struct rg_less { bool operator()(const rg_node &a, const rg_node &b) const; };\n"
+        "struct rg_agg { static bool aggregate(rg_node *node); template<typename S> static bool check_invariant(S &, rg_node *); };\n"
+        "template struct frg::_redblack::tree_crtp_struct<" + RBT + ", rg_node, &rg_node::hook, rg_agg>;\n"),
+    filter="frg::_redblack::tree_crtp_struct", class_name="tree_crtp_struct",
+    imports=("From Coq Require Import List NArith Bool.\n"
+             "From FV Require Import Rb.RbModel Rb.RbPtr PtrGen.PtrCtl PtrGen.Bind_rb.\n"
+             "Local Open Scope N_scope."),
+    section_vars=[("elt", "Type"), ("annot", "Type"), ("agg", "elt -> option annot -> option annot -> annot"),
+                  ("aeqb", "annot -> annot -> bool"), ("ek", "N -> elt")],
+    sites=True,
+    state_ty="(pstate annot)", pres="pres", ok="POk", bind="pbind",
+    assert_fail="PAssert {site}", null_fail="PUB {site}", fuel_fail="POutOfFuel", unreachable_fail="PUB {site}",
+    types={"rg_node *": ("ptr", "option N"), "void *": ("ptr", "option N"), "bool": ("bool", "bool"), "void": ("void", "unit"),
+           "frg::_redblack::color_type": ("color", "option color")},
+    ptr_types=["ptr"], is_null={"ptr": "is_null"}, eqb={"ptr": "oeqb", "color": "ceqb"},
+    enum_consts={("color", "red"): "(Some Red)", ("color", "black"): "(Some Black)", ("color", "null"): "None"},
+    hook_fn="h", hook_arrow=True,
+    fields={"parent": dict(rd="rd_parent", wr="wr_parent", ty="ptr"), "left": dict(rd="rd_left", wr="wr_left", ty="ptr"),
+            "right": dict(rd="rd_right", wr="wr_right", ty="ptr"), "predecessor": dict(rd="rd_pred", wr="wr_pred", ty="ptr"),
+            "successor": dict(rd="rd_succ", wr="wr_succ", ty="ptr"), "color": dict(rd="rd_color", wr="wr_color", ty="color")},
+    members={"_root": dict(rd="rd_root", wr="wr_root", ty="ptr")},
+    inline=["get_parent", "get_left", "get_right", "predecessor", "successor", "get_root"],
+    idioms=[cxx2heap.static_functor_idiom("rg_agg", "aggregate", "call_aggregate agg aeqb ek", ["ptr"], "bool", kind="rw",
+                                          reads=["annot", "f:left", "f:right"], writes=["annot"])],
+    functions=[("get_parent", "g_get_parent"), ("get_left", "g_get_left"), ("get_right", "g_get_right"),
+               ("predecessor", "g_predecessor"), ("successor", "g_successor"), ("get_root", "g_get_root"),
+               ("isRed", "g_isRed"), ("isBlack", "g_isBlack"), ("aggregate_node", "g_aggregate_node"),
+               ("aggregate_path", "g_aggregate_path"), ("rotateLeft", "g_rotateLeft"), ("rotateRight", "g_rotateRight"),
+               ("fix_insert", "g_fix_insert"), ("insert_root", "g_insert_root"), ("insert_left", "g_insert_left"),
+               ("insert_right", "g_insert_right"), ("fix_remove", "g_fix_remove"), ("remove_half_leaf", "g_remove_half_leaf"),
+               ("replace_node", "g_replace_node"), ("remove", "g_remove")],
+)
+
+PARTS = {"pairing": PAIRING, "hashmap": HASHMAP, "rb": RB}
 
 
 def gen_part(part):
